@@ -159,10 +159,20 @@ def run(H, tier, rng):
                     if "argument" in str(e) or "positional" in str(e):
                         H.violation("%s on %s/%s raised TypeError: %s" % (label, cname, vname, e), {"call": label, "curve": cname, "variant": vname}, clause="arity")
                     else:
-                        H.note("%s raises TypeError on %s" % (label, vname))
+                        e_ = e
+                        if label in ref and not isinstance(ref[label][1], BaseException):
+                            H.violation("%s on %s: %s returns a value but %s raises TypeError: %s" % (label, cname, ref[label][0], vname, e_), {"call": label, "curve": cname, "variant": vname}, clause="layout-dtype")
+                        else:
+                            H.note("%s raises TypeError on %s" % (label, vname))
+                            ref.setdefault(label, (vname, e_))
                     continue
                 except Exception as e:
-                    H.note("%s raises %s" % (label, type(e).__name__))
+                    # an entry point that raises for one memory layout / dtype but returns for another depends on the layout
+                    if label in ref and not isinstance(ref[label][1], BaseException):
+                        H.violation("%s on %s: %s returns a value but %s raises %s: %s" % (label, cname, ref[label][0], vname, type(e).__name__, str(e)[:100]), {"call": label, "curve": cname, "variant": vname}, clause="layout-dtype")
+                    else:
+                        H.note("%s raises %s" % (label, type(e).__name__))
+                        ref.setdefault(label, (vname, e))
                     continue
                 if not np.array_equal(before, P):
                     H.violation("%s modified its points argument (%s/%s)" % (label, cname, vname), {"call": label, "curve": cname, "variant": vname}, clause="purity")
@@ -172,6 +182,8 @@ def run(H, tier, rng):
                     continue
                 if label not in ref:
                     ref[label] = (vname, r1)
+                elif isinstance(ref[label][1], BaseException):
+                    H.violation("%s on %s: %s raises %s but %s returns a value" % (label, cname, ref[label][0], type(ref[label][1]).__name__, vname), {"call": label, "curve": cname, "variant": vname}, clause="layout-dtype")
                 elif not same(ref[label][1], r1):
                     H.violation("%s on %s: %s gives %s but %s gives %s" % (label, cname, ref[label][0], str(tolist(ref[label][1]))[:200], vname, str(tolist(r1))[:200]),
                                 {"call": label, "curve": cname, "variant": vname}, clause="layout-dtype")
